@@ -42,7 +42,7 @@ PROP = dict(
         "programs do not call RAND/NOW-like functions and do not assign variables inside queries (the generator never emits them)",
         "1 <= cpu (option.Flags.SetCPU clamps --cpu into [1, NumCPU]); record counts are non-negative",
     ],
-    level_text="Proof: Coq theorems (Properties/C12.v) over ALL record counts, ALL goroutine numbers and ALL schedules about an executable model of goroutine_manager.go: the index ranges handed to the n goroutines concatenate, in goroutine order, to exactly 0..len-1 (C12_ranges_partition; hence pairwise disjoint, ordered, each index owned by exactly one goroutine), 1 <= n <= cpu whatever the shared goroutine budget (C12_number_bounds) and the budget counter is restored (C12_count_restored); results written into index-addressed slots under ANY interleaving of the workers' writes, and per-worker lists concatenated in worker order, equal the one-goroutine map/filter/flat_map (C12_slots_eq_seq, C12_concat_eq_seq, C12_concat_slots_eq_seq), hence independence of --cpu (C12_cpu_independent). Refuted on the faithful model, with witnesses: GROUP BY appends group keys in arrival order (C12_arrival_merge_schedule_dependent_refuted, C12_group_order_cpu_dependent_refuted; partial: same groups, same members, only the order varies, sequential order with one goroutine) and REPLACE appends unmatched rows in map iteration order (C12_map_order_dependent_refuted; partial: same rows up to order). Tie to the code: RecordRange / AssignRoutineNumber / CalcMinimumRequired / the Done life cycle are called directly on a grid (thorough: every recordLen in [0,3000] x Number in [1,32]) and compared with the model inside Coq; which pattern each call site uses is tied by running generated programs with the real binary under --cpu 1,2,3,4,8,16 and repetitions and comparing stdout, exit code and every written file byte for byte.",
+    level_text="Proof: Coq theorems (Properties/C12.v) over ALL record counts, ALL goroutine numbers and ALL schedules about an executable model of goroutine_manager.go: the index ranges handed to the n goroutines concatenate, in goroutine order, to exactly 0..len-1 (C12_ranges_partition; hence pairwise disjoint, ordered, each index owned by exactly one goroutine), 1 <= n <= cpu whatever the shared goroutine budget (C12_number_bounds) and the budget counter is restored (C12_count_restored); results written into index-addressed slots under ANY interleaving of the workers' writes, and per-worker lists concatenated in worker order, equal the one-goroutine map/filter/flat_map (C12_slots_eq_seq, C12_concat_eq_seq, C12_concat_slots_eq_seq), hence independence of --cpu (C12_cpu_independent). Refuted on the faithful model, with witnesses: GROUP BY appends group keys in arrival order (C12_arrival_merge_schedule_dependent_refuted, C12_group_order_cpu_dependent_refuted; partial: same groups, same members, only the order varies, sequential order with one goroutine; C12_group_keys_sorted_by_first_record proves that the repair proposed in hooks/fix_group_key_order.patch restores the sequential order). REPLACE (repaired in /repo by 0ce9e2a) now appends unmatched rows in index order (C12_replace_order); C12_map_order_dependent_refuted records why ranging over a map was wrong. Tie to the code: RecordRange / AssignRoutineNumber / CalcMinimumRequired / the Done life cycle are called directly on a grid (thorough: every recordLen in [0,3000] x Number in [1,32]) and compared with the model inside Coq; which pattern each call site uses is tied by running generated programs with the real binary under --cpu 1,2,3,4,8,16 and repetitions and comparing stdout, exit code and every written file byte for byte.",
     level_note="Trusted: Coq kernel + vm_compute; the Go harness; the hand reading of which merge pattern each call site uses (validated only by the end-to-end runs, which see the schedules the machine produces, not all of them); float floor/ceil of small quotients modelled by integer division.",
     technique="Coq theorems on an executable model + vm_compute correspondence with the Go implementation + end-to-end determinism runs of the binary",
     design_ref="DESIGN.md section 5 (C12)",
